@@ -52,40 +52,41 @@ func (s *State) clone() *State {
 
 // Gen generates verification conditions for one top-level function.
 type Gen struct {
-	W           *World
-	sc          *Script
-	obls        []*Obligation
-	fnName      string
-	structs     map[string]string // type string -> datatype name
-	structTy    map[string]*types.Struct
-	tags        map[string]int
-	tagTypes    []types.Type
-	strLits     map[string]Term
-	heapDecl    map[string]bool
-	allocN      int
-	curBase     string
-	errs        []string
-	tparams     map[string]bool
-	absDecl     map[string]bool
-	axiomsIn    bool
-	depth       int
-	usedAssumed map[string]bool // external/assumed contracts used
-	inlined     map[string]bool
-	ghostSort   map[string]string
-	dry         int
-	wlog        *writeLog
-	closures    map[string]*closureVal
-	usedProved  map[string]bool
-	inlineN     int
-	goStmts     []string
-	freshNames  map[string]bool
-	blockingOps []string
-	curSplits   []string
-	cellClosure map[string]*closureVal // address of a function-typed variable -> the closure stored in it
-	arrSync     map[string][2]string
-	tparamTypes map[string]*types.TypeParam
-	viewArrs    []frameW  // leaf arrays whose element view was materialised (not real writes)
-	frec        *[]frameW // when set, havocLoc records the locations it writes (frame check)
+	noBytesFrame bool // set while an array view is materialised cell by cell
+	W            *World
+	sc           *Script
+	obls         []*Obligation
+	fnName       string
+	structs      map[string]string // type string -> datatype name
+	structTy     map[string]*types.Struct
+	tags         map[string]int
+	tagTypes     []types.Type
+	strLits      map[string]Term
+	heapDecl     map[string]bool
+	allocN       int
+	curBase      string
+	errs         []string
+	tparams      map[string]bool
+	absDecl      map[string]bool
+	axiomsIn     bool
+	depth        int
+	usedAssumed  map[string]bool // external/assumed contracts used
+	inlined      map[string]bool
+	ghostSort    map[string]string
+	dry          int
+	wlog         *writeLog
+	closures     map[string]*closureVal
+	usedProved   map[string]bool
+	inlineN      int
+	goStmts      []string
+	freshNames   map[string]bool
+	blockingOps  []string
+	curSplits    []string
+	cellClosure  map[string]*closureVal // address of a function-typed variable -> the closure stored in it
+	arrSync      map[string][2]string
+	tparamTypes  map[string]*types.TypeParam
+	viewArrs     []frameW  // leaf arrays whose element view was materialised (not real writes)
+	frec         *[]frameW // when set, havocLoc records the locations it writes (frame check)
 }
 
 // frameW: one element of a function's frame: a predicate on the address r within heap component key.
